@@ -4539,7 +4539,7 @@ func ruleTempNamesInvisibleToLoaders(c *Ctx, r *Reporter) {
 	AllInstrs(nfm, false, func(_ *ssa.Function, ins ssa.Instruction) {
 		if call, ok := ins.(*ssa.Call); ok {
 			switch staticName(call) {
-			case "os.Create", "os.OpenFile":
+			case "os.Create", "os.OpenFile", "os.CreateTemp":
 				create = call
 			}
 		}
@@ -4553,7 +4553,19 @@ func ruleTempNamesInvisibleToLoaders(c *Ctx, r *Reporter) {
 		list = append(list, e)
 	}
 	sort.Strings(list)
-	suffix, callerText := nameSuffixOf(create.Call.Args[0], 0)
+	nameArg := create.Call.Args[0]
+	if staticName(create) == "os.CreateTemp" { // the name is the pattern with its last "*" replaced by random digits (appended if there is none)
+		nameArg = create.Call.Args[1]
+		if pat, isK := constString(nameArg); isK {
+			if i := strings.LastIndex(pat, "*"); i >= 0 && i+1 < len(pat) {
+				nameArg = ssa.NewConst(constant.MakeString(pat[i+1:]), types.Typ[types.String])
+			} else {
+				r.OK(cons, c.InsPos(create), "the temporary name ends in random digits: no loader selects it ("+strings.Join(list, ", ")+")")
+				return
+			}
+		}
+	}
+	suffix, callerText := nameSuffixOf(nameArg, 0)
 	switch {
 	case callerText:
 		r.Bad(cons, c.InsPos(create), "the temporary name ENDS with the caller's file name: for a table x.sst it ends in .sst, which the loaders select ("+strings.Join(list, ", ")+") — a crash between create and rename leaves a half-written file that the next open tries to load as a table and fails on")
@@ -5132,6 +5144,10 @@ func ruleDefaultRegistryLimits(c *Ctx, r *Reporter) {
 	ttl, idle, okT, okI := limits(fn, nil, 0)
 	if !okT || !okI {
 		r.Undecided(cons, c.FnPos(fn), "the default limits could not be resolved to constants")
+		return
+	}
+	if idle > 0 && idle < int64(time.Millisecond) || ttl > 0 && ttl < int64(time.Millisecond) {
+		r.Bad(cons, c.FnPos(fn), fmt.Sprintf("a default transaction limit is below a millisecond (idle %s, lifetime %s) — a bare number where a time.Duration is expected counts nanoseconds: no transaction survives from one request to the next, the sweep that runs before every BeginTransaction rolls back every other open handle", time.Duration(idle), time.Duration(ttl)))
 		return
 	}
 	r.Check(idle > 0 && idle < ttl, cons, c.FnPos(fn), fmt.Sprintf("idle limit %s < lifetime limit %s", time.Duration(idle), time.Duration(ttl)),
@@ -6456,4 +6472,265 @@ func ruleBackoffFromCurrentEpisodeOnly(c *Ctx, r *Reporter) {
 		return c.FnPos(fn)
 	}(), "the pause is computed from the current state and the time in it",
 		"the reconnect pause is computed from "+what+", which is not a property of the current error episode (a lifetime count, a history): this replica goes through its back-off after every batch of at most 100 entries, so anything cumulative makes each later step slower for good — after a few failed dials early on, a catch-up takes a minute per hundred entries")
+}
+
+// ruleBlockLookupComparesTheKey (round 11): block.Iterator.Seek answers true for the first key >= target. A point lookup that
+// takes that for "found" returns the successor's value for a key that was never written (hidden behind the bloom filter
+// until a false positive, or a table written without filters). Every 'found' exit of Reader.SearchBlockForKey lies
+// behind an equality test of the iterator's key with the key sought.
+func ruleBlockLookupComparesTheKey(c *Ctx, r *Reporter) {
+	r.Rule("block-lookup-compares-the-key", 1)
+	fn := c.Func("pkg/sstable", "Reader", "SearchBlockForKey")
+	cons := "sstable.Reader.SearchBlockForKey"
+	if fn == nil || len(fn.Params) < 3 {
+		r.Unresolved(cons, "not found")
+		return
+	}
+	key := ssa.Value(fn.Params[2])
+	equal := func(cond ssa.Value) (bool, bool) {
+		call, ok := cond.(*ssa.Call)
+		if ok && staticName(call) == "bytes.Equal" && (call.Call.Args[0] == key || call.Call.Args[1] == key) {
+			return true, false
+		}
+		if bo, isB := cond.(*ssa.BinOp); isB {
+			for _, pair := range [][2]ssa.Value{{bo.X, bo.Y}, {bo.Y, bo.X}} {
+				if cc, ok := pair[0].(*ssa.Call); ok && staticName(cc) == "bytes.Compare" && (cc.Call.Args[0] == key || cc.Call.Args[1] == key) {
+					if k, isK := constInt(pair[1]); isK && k == 0 {
+						switch bo.Op {
+						case token.EQL:
+							return true, false
+						case token.NEQ:
+							return false, true
+						}
+					}
+				}
+			}
+		}
+		return false, false
+	}
+	n := 0
+	var bad *ssa.Return
+	for _, ret := range Returns(fn) {
+		if len(ret.Results) != 2 {
+			continue
+		}
+		if b, isK := constBool(ReturnValue(ret, 1)); isK && !b {
+			continue
+		}
+		n++
+		if !GuardedBy(ret.Block(), equal) {
+			bad = ret
+		}
+	}
+	if n == 0 {
+		r.Undecided(cons, c.FnPos(fn), "no 'found' exit recognised")
+		return
+	}
+	if bad != nil {
+		r.Bad(cons, c.InsPos(bad), "a 'found' exit of the block search is not behind an equality test of the iterator's key with the key sought: Seek lands on the first key >= target, so for a key that was never written the successor's value is returned as found (a tombstone successor: found-and-deleted) whenever the block is searched at all — on a bloom false positive, or in a table written without filters")
+		return
+	}
+	r.OK(cons, c.FnPos(fn), fmt.Sprintf("%d 'found' exit(s), each behind bytes.Equal(iterator key, key)", n))
+}
+
+// ruleLastSequenceConvention (round 11): two conventions live side by side — WAL.GetNextSequence() is the number the NEXT write
+// gets, everything that is reported (lastSyncedSeq, GetLastSequence, node info, statistics) is the LAST number used. A
+// reported field seeded with GetNextSequence() as it is shows a sequence no write was ever stamped with, and drops by
+// one at the first sync: the reported last sequence decreases. Stores to Primary.lastSyncedSeq take a parameter of the
+// sync callback or GetNextSequence()-1, never the bare counter.
+func ruleLastSequenceConvention(c *Ctx, r *Reporter) {
+	r.Rule("reported-sequence-is-the-last-used-not-the-next", 1)
+	fld := c.Field("pkg/replication", "Primary", "lastSyncedSeq")
+	if fld == nil {
+		r.Unresolved("replication.Primary.lastSyncedSeq", "not found")
+		return
+	}
+	n := 0
+	for _, fn := range c.KevoFns {
+		if pkgOf(fn) != "pkg/replication" {
+			continue
+		}
+		AllInstrs(fn, false, func(_ *ssa.Function, ins ssa.Instruction) {
+			st, ok := ins.(*ssa.Store)
+			if !ok || fieldVarOf(st.Addr) != fld {
+				return
+			}
+			n++
+			v := stripConv(st.Val)
+			bare := false
+			if call, ok := v.(*ssa.Call); ok && call.Call.StaticCallee() != nil && call.Call.StaticCallee().Name() == "GetNextSequence" {
+				bare = true
+			}
+			cons := FnName(fn) + ":store(lastSyncedSeq)"
+			r.Check(!bare, cons, c.InsPos(ins), "the stored value is a last-used sequence ("+Path(st.Val)+")",
+				"Primary.lastSyncedSeq is set to WAL.GetNextSequence() as it is: that is the number the next write will get, not the last one used — GetLastSequence and the node information report a sequence no write carries, and the value drops by one at the first sync that follows without a write")
+		})
+	}
+	if n == 0 {
+		r.Undecided("replication.Primary.lastSyncedSeq", "-", "no store to Primary.lastSyncedSeq found")
+	}
+}
+
+// ruleTableIteratorLoadsWhatItIndexed (round 11): sstable.Iterator keeps the loaded data block between calls. A positioning
+// method first positions the index cursor and then works on "the current block": between the two it must load the
+// block the index now points at — on every path. Skipping the load "because a block is already loaded" positions
+// inside the block an earlier call left behind: SeekToLast after SeekToFirst answers with the last key of the FIRST
+// block, and the table's recorded key range (read that way when tables are loaded for compaction) is too small.
+func ruleTableIteratorLoadsWhatItIndexed(c *Ctx, r *Reporter) {
+	r.Rule("table-iterator-loads-the-block-it-indexed", 3)
+	idxF := c.Field("pkg/sstable", "Iterator", "indexIterator")
+	blkF := c.Field("pkg/sstable", "Iterator", "dataBlockIter")
+	load := c.Func("pkg/sstable", "Iterator", "loadCurrentDataBlock")
+	if idxF == nil || blkF == nil || load == nil {
+		r.Unresolved("sstable.Iterator.{indexIterator,dataBlockIter,loadCurrentDataBlock}", "not found")
+		return
+	}
+	for _, name := range []string{"seekToFirst", "SeekToLast", "Seek"} {
+		fn := c.Func("pkg/sstable", "Iterator", name)
+		cons := "sstable.Iterator." + name
+		if fn == nil {
+			r.Unresolved(cons, "not found")
+			continue
+		}
+		var idxCalls, blkCalls []ssa.Instruction
+		AllInstrs(fn, false, func(_ *ssa.Function, ins ssa.Instruction) {
+			call, ok := ins.(*ssa.Call)
+			if !ok || call.Call.StaticCallee() == nil || len(call.Call.Args) == 0 || !strings.HasPrefix(call.Call.StaticCallee().Name(), "Seek") {
+				return
+			}
+			switch {
+			case isLoadOfField(call.Call.Args[0], idxF):
+				idxCalls = append(idxCalls, ins)
+			case isLoadOfField(call.Call.Args[0], blkF):
+				blkCalls = append(blkCalls, ins)
+			}
+		})
+		if len(idxCalls) == 0 || len(blkCalls) == 0 {
+			r.Info(cons, c.FnPos(fn), "no index positioning followed by a positioning of the data block iterator in this function: not judged")
+			r.OK(cons+":shape", c.FnPos(fn), "nothing recognised to judge")
+			continue
+		}
+		isBlk := func(i ssa.Instruction) bool {
+			for _, b := range blkCalls {
+				if b == i {
+					return true
+				}
+			}
+			return false
+		}
+		isLoad := func(i ssa.Instruction) bool {
+			call, ok := i.(*ssa.Call)
+			return ok && call.Call.StaticCallee() == load
+		}
+		var bad ssa.Instruction
+		var badPath []*ssa.BasicBlock
+		for _, ic := range idxCalls {
+			if hit, path := Reach(fn, ic, isBlk, isLoad); hit != nil {
+				bad, badPath = hit, path
+			}
+		}
+		if bad != nil {
+			r.Bad(cons, c.InsPos(bad), "the data block iterator is positioned on a path that, since the index cursor was positioned, has not loaded the block the index points at: the method then works inside whatever block an earlier call left loaded — SeekToLast after SeekToFirst lands on the last key of the first block", c.PathString(badPath)...)
+			continue
+		}
+		r.OK(cons, c.FnPos(fn), "every path from the index positioning to the block positioning loads the indexed block")
+	}
+}
+
+// rulePositionalReadsOnSharedFiles (round 11): one IOManager — one *os.File — serves every concurrent reader of a table, under
+// a shared lock. That is only sound with positional reads (ReadAt, pread), which do not touch the file's offset. A
+// Seek followed by a Read moves an offset all readers share: two overlapping lookups fetch each other's block, the
+// checksum fails or — worse — the lookup ends "not found" and the engine answers from an older table.
+func rulePositionalReadsOnSharedFiles(c *Ctx, r *Reporter) {
+	r.Rule("shared-table-files-are-read-positionally", 1)
+	li := c.Locks()
+	n := 0
+	var bad ssa.Instruction
+	var badFn *ssa.Function
+	what := ""
+	for _, fn := range c.KevoFns {
+		if pkgOf(fn) != "pkg/sstable" || recvTypeName(fn) != "sstable.IOManager" {
+			continue
+		}
+		AllInstrs(fn, false, func(_ *ssa.Function, ins ssa.Instruction) {
+			call, ok := ins.(ssa.CallInstruction)
+			if !ok {
+				return
+			}
+			f := call.Common().StaticCallee()
+			if f == nil || recvTypeName(f) != "os.File" {
+				return
+			}
+			n++
+			switch f.Name() {
+			case "Seek", "Read", "Write", "ReadFrom":
+				if !li.HeldAt(ins).Holds("sstable.IOManager.mu", "W") {
+					bad, badFn, what = ins, fn, f.Name()
+				}
+			}
+		})
+	}
+	if n == 0 {
+		r.Undecided("sstable.IOManager", "-", "no file operation found in IOManager")
+		return
+	}
+	if bad != nil {
+		r.Bad(FnName(badFn)+":os.File."+what, c.InsPos(bad), "the table file is accessed through its shared offset (os.File."+what+") while only a shared lock is held: every concurrent reader of the table uses the same *os.File, so two overlapping reads move each other's position — a lookup gets another lookup's block, fails its checksum or ends 'not found', and the engine answers from an older table")
+		return
+	}
+	r.OK("sstable.IOManager:file-operations", "-", fmt.Sprintf("%d file operation(s), none through the shared offset without the exclusive lock", n))
+}
+
+// ruleTableIteratorMarksItselfPositioned (round 11): Key, Value, Valid and IsTombstone of sstable.Iterator answer only when the
+// `initialized` flag is set. Every positioning method sets it on every path — a SeekToLast that positions the block
+// iterator correctly but returns with the flag clear reports itself invalid when it is the first call on the iterator,
+// and the merged SeekToLast then ignores every on-disk source.
+func ruleTableIteratorMarksItselfPositioned(c *Ctx, r *Reporter) {
+	r.Rule("table-iterator-marks-itself-positioned", 3)
+	flag := c.Field("pkg/sstable", "Iterator", "initialized")
+	if flag == nil {
+		r.Unresolved("sstable.Iterator.initialized", "not found")
+		return
+	}
+	sets := func(i ssa.Instruction) bool {
+		st, ok := i.(*ssa.Store)
+		if !ok || fieldVarOf(st.Addr) != flag {
+			return false
+		}
+		b, isK := constBool(st.Val)
+		return isK && b
+	}
+	var allExitsSet func(fn *ssa.Function, d int) (ssa.Instruction, []*ssa.BasicBlock)
+	allExitsSet = func(fn *ssa.Function, d int) (ssa.Instruction, []*ssa.BasicBlock) {
+		var rets []ssa.Instruction
+		for _, ret := range Returns(fn) {
+			rets = append(rets, ret)
+		}
+		return MustPass(fn, rets, func(i ssa.Instruction) bool {
+			if sets(i) {
+				return true
+			}
+			if call, ok := i.(*ssa.Call); ok && d > 0 {
+				if h := call.Call.StaticCallee(); h != nil && len(h.Blocks) > 0 && recvTypeName(h) == recvTypeName(fn) && h != fn {
+					bad, _ := allExitsSet(h, d-1)
+					return bad == nil
+				}
+			}
+			return false
+		})
+	}
+	for _, name := range []string{"SeekToFirst", "SeekToLast", "Seek"} {
+		fn := c.Func("pkg/sstable", "Iterator", name)
+		cons := "sstable.Iterator." + name
+		if fn == nil {
+			r.Unresolved(cons, "not found")
+			continue
+		}
+		bad, path := allExitsSet(fn, 1)
+		if bad != nil {
+			r.Bad(cons, c.InsPos(bad), "an exit of the positioning method is reachable without `initialized = true`: Key/Value/Valid answer only when the flag is set, so an iterator positioned by this call alone reports itself invalid — a SeekToLast that is the first call on a table iterator makes the merged iterator ignore the table", c.PathString(path)...)
+			continue
+		}
+		r.OK(cons, c.FnPos(fn), "every exit has set the flag")
+	}
 }
